@@ -113,6 +113,7 @@ def _c18():
     m2 = [
         ("c18_m2_term1_term3_valid", "terminator(depth 1) + terminator(depth 3), claimed depths (1, 3), 1 sibling (first may be a prefix of the second)"),
         ("c18_m2_2leaf_valid", "2 leaves, claimed depths (2, 2), 2 siblings"),
+        ("c18_m2_term1_term1_over", "terminator(depth 1) + terminator(depth 1), claimed depths (2, 1), 1 sibling (claimed depth exceeds the terminal's own path after the bisection)"),
         ("c18_m2_leaf_term_short_sibs", "leaf + terminator(2), claimed depths (3, 2), 0 siblings"),
     ]
     for h, d in m2:
@@ -326,7 +327,7 @@ P_RB_POISON = P("rollback_append_poison", "the four commit entry points: when th
                 "before the error is returned", P_BOUNDS, assumes=[ASSUME_P])
 P_SWEEP = [P("no_swallow_sweep_%d" % i, "sweep shard %d/8 over every function of nomt/src/{store,bitbox,beatree,rollback,seglog,io}/ and lib.rs that produces an "
              "io::Result / anyhow::Result / CompleteIo / TaskResult: the value is inspected, propagated or handed on before it is dropped; "
-             "`r.is_ok()` / `r.is_err()` discharge it only on the Ok arm. Exempt: fs_check capability probes; the fsyncer worker's result after HandleDead" % i,
+             "`r.is_ok()` / `r.is_err()` discharge it only on the Ok arm. Exempt: fs_check capability probes and the best-effort fallocate (falloc_zero_file) whose failure selects the write-zeroes fallback; the fsyncer worker's result after HandleDead" % i,
              P_BOUNDS, assumes=[ASSUME_P], timeout_s=60) for i in range(8)]
 P_HANDBACK = P("handback_intact", "try_commit_nonblocking (session, overlay): on every path to `Ok(Some(self))` each field moved out of / mutably "
                "borrowed from self has been assigned back", P_BOUNDS, assumes=[ASSUME_P])
@@ -430,12 +431,12 @@ K_PAGEID = [K("c16_pageid::" + n, tier=t, unwind=22, classes="default", timeout_
             [(n, t, "labels are injective: encode(p) == encode(q) implies p == q", "every pair of page ids of the named depths, all limbs symbolic")
              for n, t in [("c16_inj_d2_d2", "quick"), ("c16_inj_d9_d10", "quick"), ("c16_inj_d10_d10", "quick"), ("c16_inj_d10_d11", "thorough")]]]
 
-K_MISC = _nomt_family("c16_misc", ["c16_pagediff_bytes_roundtrip", "c16_pagediff_set_and_join", "c16_overflow_cell_n1", "c16_overflow_cell_n3"],
+K_MISC = _nomt_family("c16_misc", ["c16_pagediff_bytes_roundtrip", "c16_pagediff_set_and_join", "c16_pagediff_pack_order", "c16_overflow_cell_n1", "c16_overflow_cell_n3"],
                       "small codecs: PageDiff::from_bytes accepts exactly bitmaps with the reserved bits clear and as_bytes inverts it, "
-                      "changed/count/set_changed/join are the documented bit operations; overflow cell decode(encode(size, hash, pages)) "
+                      "changed/count/set_changed/join are the documented bit operations; pack_changed_nodes emits exactly the nodes of the set slots in increasing order (any <= 3 of the 126 slots); overflow cell decode(encode(size, hash, pages)) "
                       "returns size, hash and page numbers in order, layout le64(size) ++ hash ++ le32(pn)*",
                       "every 16-byte bitmap / slot index; every size <= 2^29, hash and page numbers (n = 1, 3)",
-                      ["nomt::page_diff::PageDiff::{from_bytes, as_bytes, changed, set_changed, count, join, set_cleared, cleared}",
+                      ["nomt::page_diff::PageDiff::{from_bytes, as_bytes, changed, set_changed, count, join, set_cleared, cleared, pack_changed_nodes, iter_ones}",
                        "nomt::beatree::ops::overflow::{encode_cell, decode_cell}"],
                       unwind=40, classes="default", timeout_s=900, mem_gb=6)
 
